@@ -4,7 +4,7 @@ use crate::ir;
 use crate::ir::DocIR;
 use emmylua_parser::{
     LuaAstNode, LuaAstToken, LuaComment, LuaDocDescription, LuaDocDescriptionOwner, LuaDocFieldKey,
-    LuaDocTag, LuaSyntaxId, LuaSyntaxToken, LuaTokenKind,
+    LuaDocTag, LuaDocType, LuaSyntaxId, LuaSyntaxToken, LuaTokenKind,
 };
 use std::collections::HashMap;
 
@@ -694,13 +694,26 @@ fn comment_desc_for_tag(c: &LuaComment, tag: &LuaDocTag) -> String {
 }
 
 fn format_node_tokens(plan: &FormatPlan, node: &emmylua_parser::LuaSyntaxNode) -> String {
+    // The doc parser leaves the parentheses of a parenthesized type outside the type node
+    // (`(A) | B` is `(` followed by a binary node `A) | B`), so they are collected from the
+    // neighbouring siblings; otherwise they would be dropped from the rendered type.
+    let (leading, trailing) = if LuaDocType::can_cast(node.kind().into()) {
+        surrounding_type_parens(node)
+    } else {
+        (Vec::new(), Vec::new())
+    };
+    let tokens = leading
+        .into_iter()
+        .chain(
+            node.descendants_with_tokens()
+                .filter_map(|element| element.into_token()),
+        )
+        .chain(trailing);
+
     let mut result = String::new();
     let mut prev: Option<LuaSyntaxToken> = None;
     let mut had_ws = false;
-    for el in node.descendants_with_tokens() {
-        let Some(tok) = el.into_token() else {
-            continue;
-        };
+    for tok in tokens {
         match tok.kind().to_token() {
             LuaTokenKind::TkWhitespace => {
                 had_ws = true;
@@ -723,6 +736,66 @@ fn format_node_tokens(plan: &FormatPlan, node: &emmylua_parser::LuaSyntaxNode) -
         }
     }
     result.trim().to_string()
+}
+
+/// The `(` tokens directly before and the matching `)` tokens directly after a doc type node
+/// (with the whitespace between them), in source order.
+fn surrounding_type_parens(
+    node: &emmylua_parser::LuaSyntaxNode,
+) -> (Vec<LuaSyntaxToken>, Vec<LuaSyntaxToken>) {
+    let mut leading = Vec::new();
+    let mut current = node.prev_sibling_or_token();
+    while let Some(token) = current.as_ref().and_then(|element| element.as_token()) {
+        match token.kind().to_token() {
+            LuaTokenKind::TkWhitespace | LuaTokenKind::TkLeftParen => leading.push(token.clone()),
+            _ => break,
+        }
+        current = token.prev_sibling_or_token();
+    }
+    while leading
+        .last()
+        .is_some_and(|token| token.kind().to_token() == LuaTokenKind::TkWhitespace)
+    {
+        leading.pop();
+    }
+    leading.reverse();
+
+    let is_paren = |token: &LuaSyntaxToken, kind: LuaTokenKind| token.kind().to_token() == kind;
+    let mut open = leading
+        .iter()
+        .filter(|token| is_paren(token, LuaTokenKind::TkLeftParen))
+        .count() as isize;
+    for token in node
+        .descendants_with_tokens()
+        .filter_map(|element| element.into_token())
+    {
+        if is_paren(&token, LuaTokenKind::TkLeftParen) {
+            open += 1;
+        } else if is_paren(&token, LuaTokenKind::TkRightParen) {
+            open -= 1;
+        }
+    }
+
+    let mut trailing = Vec::new();
+    let mut pending_ws = Vec::new();
+    let mut current = node.next_sibling_or_token();
+    while open > 0 {
+        let Some(token) = current.as_ref().and_then(|element| element.as_token()) else {
+            break;
+        };
+        match token.kind().to_token() {
+            LuaTokenKind::TkWhitespace => pending_ws.push(token.clone()),
+            LuaTokenKind::TkRightParen => {
+                trailing.append(&mut pending_ws);
+                trailing.push(token.clone());
+                open -= 1;
+            }
+            _ => break,
+        }
+        current = token.next_sibling_or_token();
+    }
+
+    (leading, trailing)
 }
 
 fn inter_token_spaces(
